@@ -397,10 +397,10 @@ impl Prop for C09 {
     type Case = Case;
 
     fn rule() -> String {
-        "generated fault placements: a target module (2 start-up stages, a timer task ticking every 1..6 ms up to 7 times per incarnation), a \
+        "generated fault placements: a target module (2 start-up stages, a timer task - created with tokio::spawn or spawn_local - ticking every 1..6 ms up to 7 times per incarnation), a \
          driver and a bystander (greeted by the target through a gate from its last start-up stage in every incarnation); messages injected directly and sent by the driver over a latency channel (in transit at shutdown), messages to the \
          bystander routed through a transit gate owned by the target; shutdown / shutdown-and-restart(0..40 ms) commands attached to generated \
-         messages and to generated (incarnation, tick) points of the task, up to several cycles. All instants are distinct by construction \
+         messages, to generated (incarnation, tick) points of the task and to the last start-up stage of a restart, up to several cycles. All instants are distinct by construction \
          (microsecond offsets). Oracle: an incarnation model yields the exact log (kind, incarnation, time) of the target (start stages once each at \
          the restart time, ticks, handled messages, reset once per shutdown, nothing in down intervals or from older incarnations), of the \
          bystander (messages through the target's gate dropped exactly while it is down) and of is_active() as seen by the driver. Non-trivial iff \
@@ -410,7 +410,7 @@ impl Prop for C09 {
     fn assumptions() -> Vec<String> {
         vec![
             "no two events of a run share a timestamp (so a message arriving exactly at the restart instant does not occur)".into(),
-            "shutdown is never requested from a start-up stage".into(),
+            "shutdown is never requested from a start-up stage of the initial start, nor from a non-final stage".into(),
         ]
     }
     fn plan(tier: Tier) -> Plan {
